@@ -565,11 +565,11 @@ func (e *Engine) specFunc(y *ECall, env *evalEnv) (Val, bool) {
 		a, b := arg(0), arg(1)
 		ka, kb := e.specKey(a, env), e.specKey(b, env)
 		srt := e.pairSortOf([]string{e.specKeySort(a), e.specKeySort(b)}, "Pair")
-		return Val{S: app("mk_"+srt, ka, kb), T: bvT}, true
+		return Val{S: app("mk_"+srt, ka, kb), T: bvT, KeySort: srt}, true
 	case "triple":
 		a, b, c := arg(0), arg(1), arg(2)
 		srt := e.pairSortOf([]string{e.specKeySort(a), e.specKeySort(b), e.specKeySort(c)}, "Triple")
-		return Val{S: app("mk_"+srt, e.specKey(a, env), e.specKey(b, env), e.specKey(c, env)), T: bvT}, true
+		return Val{S: app("mk_"+srt, e.specKey(a, env), e.specKey(b, env), e.specKey(c, env)), T: bvT, KeySort: srt}, true
 	case "exists_in", "has":
 		// has(store, key)
 		if len(y.Args) == 2 {
@@ -729,6 +729,9 @@ func (e *Engine) specKey(v Val, env *evalEnv) string {
 }
 
 func (e *Engine) specKeySort(v Val) string {
+	if v.KeySort != "" {
+		return v.KeySort
+	}
 	if v.T != nil && isByteSlice(v.T) {
 		return "BV"
 	}
